@@ -237,6 +237,31 @@ ADDED8 = {
 for _pid, _t in ADDED8.items():
     CLAIMS[_pid]["text"] = CLAIMS[_pid]["text"].rstrip() + " Round 8: " + _t
 
+# clauses added in the ninth seeding round
+ADDED9 = {
+    "C01": "R-01.12 also: the generator context managers of the wire parser (restrict_to, restore_furthest) restore the state they changed in a `finally` that covers the yield. R-01.14 every decode() of the IDNA codec family returns _escapify(...), super().decode(...) or ''.",
+    "C02": "R-02.14 contradiction rule over dns/rdtypes: no guard re-tests a clause that an earlier `if a or b: raise` of the same block excludes. R-02.9 also adopts C05 R-05.15.",
+    "C03": "R-03.13 adopts C02 R-02.3, C18 R-18.8 and C07 R-07.11.",
+    "C04": "R-04.5 also: parser context managers restore state in a finally. R-04.10 also adopts C05 R-05.1.",
+    "C05": "R-05.14 runs the rule function of C09 R-09.1 (to_generic receives style.origin unconditionally). R-05.15 in LOC.py int() never truncates a product or quotient with a non-integer operand.",
+    "C06": "R-06.11 a return of fullcompare not dominated by the label scan is a mixed-relativity return (NONE, 0 common labels). R-06.12 runs the rule function of C15 R-15.5.",
+    "C07": "R-07.10 the `self is other` shortcuts of dns.set.Set obey the idempotence laws (table). R-07.11 Rdataset.__eq__ refuses on every field Rdataset.match() takes, then compares members; RRset.__eq__ adds the owner name.",
+    "C08": "R-08.11 Renderer.reserve / release_reserved executed by the checker over 1000 two-step histories: refusal exactly when the total exceeds the limit; release restores it.",
+    "C09": "R-09.7 also adopts C05 R-05.13.",
+    "C10": "R-10.15 in dns.transaction.Transaction a value read from the store is never edited in place.",
+    "C11": "R-11.8 the data primitives of dns.zone.Transaction use self.version, never self.zone / self.manager. R-11.6 also adopts C10 R-10.15.",
+    "C12": "R-12.10 runs the rule function of C13 R-13.2 (Inbound.__exit__ rolls back whatever is open).",
+    "C13": "R-13.5 also adopts C10 R-10.15.",
+    "C14": "R-14.11 adopts C18 R-18.2.",
+    "C15": "R-15.9 NSEC bitmaps at delegation points hold NS and DS only (type filter evaluated; delegation status passed at both call sites; repaired). R-15.10 no to_wire/_to_wire/to_digestable rebinds `origin`. R-15.11 a parameter from which a loop fills a fresh local collection (its normalised copy) is not read after that loop (dns.dnssec).",
+    "C16": "R-16.10 `qname + suffix` over the search list is in a try that handles NameTooLong (repaired). R-16.7 also adopts C18 R-18.11.",
+    "C18": "R-18.10 adopts C07 R-07.11. R-18.11 every SOCK_STREAM make_socket of dns.asyncquery passes a timeout.",
+    "C19": "R-19.12 every `current_node = current_node.children[...]` is inside a while loop. R-19.13 every BTree/BTreeDict/BTreeSet mutator reaches _check_mutable_and_park() on every path to a normal return.",
+    "C20": "R-20.7 adopts C06 R-06.11; R-20.5 also adopts C19 R-19.9.",
+}
+for _pid, _t in ADDED9.items():
+    CLAIMS[_pid]["text"] = CLAIMS[_pid]["text"].rstrip() + " Round 9: " + _t
+
 NA_REASON = {}
 def na(pid, reason):
     NA_REASON[pid] = reason
